@@ -611,8 +611,10 @@ class Explorer:
                         continue
                     alts.append(('flag', t[1].qualname, bits, '|'.join(nm for nm, v in mems if v & bits) or '0'))
             elif t[0] == 'enum':
+                only = c.opts.get('enum_cases', {}).get(p)      # optional: restrict the split to the named members
                 for i, (nm, _) in enumerate(self.index.enum_members(t[1])):
-                    alts.append(('enum', t[1].qualname, i, nm))
+                    if only is None or nm in only:
+                        alts.append(('enum', t[1].qualname, i, nm))
             elif t[0] == 'bool':
                 alts = [('bool', False), ('bool', True)]
             elif t[0] == 'union':
